@@ -267,6 +267,15 @@ func genEcdhOps(r *rand.Rand, n int) []string {
 			ot := odd.tokens(r, 1, kidA)
 			out = append(out, "ecdh.topublic "+ot, "ecdh.compress "+ot, fmt.Sprintf("ecdh.derive %s | %s | same", ot, b.tokens(r, 2, kidA)))
 		}
+		if i%11 == 3 && crv != 4 { // a compressed remote key whose x ends in a zero octet (searched for): trailing zeros are digits
+			for try := 0; try < 4000; try++ {
+				z := genDhKey(r, crv)
+				if z.pubX[len(z.pubX)-1] == 0 {
+					out = append(out, fmt.Sprintf("ecdh.derive %s | %s | same", local, z.tokens(r, 4, kidA)), fmt.Sprintf("ecdh.derive %s | %s | same", local, z.tokens(r, 5, kidA)), "ecdh.compress "+z.tokens(r, 2, kidA))
+					break
+				}
+			}
+		}
 		if i%11 == 6 { // remote (and local) keys naming a curve this package has no arithmetic for, every registered id and some beyond
 			oc := []int{5, 6, 7, 8, 0, 9, -1, 256, 2147483647}[(i/11)%9]
 			kty := "int:1"
